@@ -539,9 +539,14 @@ def mutate_block(rng, base, kind):
     """a header block for `kind`, derived from a conformant base by 0..3 rule-breaking (or harmless) edits; list of
     (name, value) bytes pairs"""
     hs = list(base)
+    if rng.random() < 0.4:
+        # conformant variation: the pseudo-header fields in another order
+        ps = [h for h in hs if h[0].startswith(b':')]
+        rng.shuffle(ps)
+        hs = ps + [h for h in hs if not h[0].startswith(b':')]
     edits = rng.choice([0, 0, 1, 1, 1, 2, 3])
     for _ in range(edits):
-        m = rng.randrange(24)
+        m = rng.randrange(27)
         pos = rng.randrange(len(hs) + 1)
         at = rng.randrange(len(hs)) if hs else None
         if m == 0 and hs:
@@ -597,6 +602,17 @@ def mutate_block(rng, base, kind):
             hs.insert(pos, (b'Host', b'x'))
         elif m == 22:
             hs.insert(pos, (b'authorization', b'secret'))
+        elif m == 23:
+            # :authority and Host both present, equal / different / one of them empty
+            a, h = rng.choice([(b'x', b'x'), (b'x', b'y'), (b'', b'x'), (b'x', b''), (b'', b''), (b'X', b'x')])
+            hs = [(n, a if n == b':authority' else v) for n, v in hs]
+            if not any(n == b':authority' for n, v in hs):
+                hs.insert(0, (b':authority', a))
+            hs.append((b'host', h))
+        elif m == 24:
+            hs = [(n, b'' if n in (b':authority', b':scheme', b':method', b':status') and rng.random() < 0.5 else v) for n, v in hs]
+        elif m == 25:
+            hs.append((b'te', b'trailers'))
         else:
             hs.insert(pos, (b'x-ok', b'fine'))
     return hs
@@ -619,7 +635,7 @@ def special_C15(seed, tier, model, deadline):
     INFO = [(b':status', b'100')]
     TRAIL = [(b'x-checksum', b'abc')]
     blk = lambda hs: wire.hpack_literal_block([(n, v, False) for n, v in hs])
-    n = {'quick': 400, 'thorough': 8000}.get(tier, 400)
+    n = {'quick': 600, 'thorough': 10000}.get(tier, 600)
     fails, mism, progs, nops = [], [], 0, 0
     stats = {}
     import rulebook
@@ -674,6 +690,122 @@ def special_C15(seed, tier, model, deadline):
         prob = rulebook.block_problem(hs, kind)
         stats[(kind, prob or 'conformant')] = stats.get((kind, prob or 'conformant'), 0) + 1
         _judge('C15', ops, 'grammar-%d' % k, seed, model, oracle_C15, fails, mism)
+        progs += 1
+        nops += len(ops)
+    dist = {}
+    for (kind, p), c in stats.items():
+        dist.setdefault(kind, {})[p] = c
+    return {'failures': fails, 'mismatches': mism,
+            'coverage': {'grammar_programs': progs, 'grammar_ops': nops, 'grammar_blocks_by_kind_and_first_broken_rule': dist}}
+
+
+def special_C14(seed, tier, model, deadline):
+    """outbound header lists over a grammar (conformant bases with 0..3 edits; names and values as bytes or text, mixed
+    case, surrounding whitespace, every special field name, duplicates, reorderings) sent as request, response,
+    informational response, trailers and pushed request under each normalise/validate option combination; the op
+    says which kind of block it is (the stream is in the right state), so oracle_C14 also judges refusals"""
+    import random
+    import time
+    import wire
+    from oracles import oracle_C14
+    REQ = [(b':method', b'GET'), (b':scheme', b'https'), (b':path', b'/'), (b':authority', b'x')]
+    POST = [(b':method', b'POST'), (b':scheme', b'https'), (b':path', b'/p'), (b':authority', b'x'), (b'x-a', b'1')]
+    CONNECT = [(b':method', b'CONNECT'), (b':scheme', b'https'), (b':path', b'/'), (b':authority', b'x'), (b':protocol', b'websocket')]
+    HOSTED = [(b':method', b'GET'), (b':scheme', b'http'), (b':path', b'/'), (b'host', b'x')]
+    RESP = [(b':status', b'200'), (b'server', b'x')]
+    INFO = [(b':status', b'100')]
+    TRAIL = [(b'x-checksum', b'abc')]
+    blk = lambda hs: wire.hpack_literal_block([(n, v, False) for n, v in hs])
+    n = {'quick': 600, 'thorough': 10000}.get(tier, 600)
+    fails, mism, progs, nops = [], [], 0, 0
+    stats = {}
+    import rulebook
+
+    def dress(rng, hs):
+        """the same fields as the application might write them: text or bytes, odd case, padding"""
+        out = []
+        for nm, v in hs:
+            r = rng.random()
+            if r < 0.25:
+                nm = nm.title() if rng.random() < 0.5 else nm.upper()
+            if rng.random() < 0.2:
+                w = rng.choice([b' ', b'\t', b'  ', b'\n', b'\r\n', b'\x0b', b'\x0c'])
+                nm, v = rng.choice([(w + nm, v), (nm + w, v), (nm, w + v), (nm, v + w), (w + nm + w, w + v + w)])
+            ni = rng.random() < 0.1
+            try:
+                if rng.random() < 0.35:
+                    nm, v = nm.decode('ascii'), v.decode('utf-8')
+            except UnicodeDecodeError:
+                pass
+            out.append((nm, v, ni))
+        return out
+
+    for k in range(n):
+        if time.time() > deadline:
+            break
+        rng = random.Random((seed * 32452843 + k) & 0xFFFFFFFF)
+        kind = rng.choice(['request', 'request', 'response', 'informational', 'trailers', 'push'])
+        vo = 0 if rng.random() < 0.2 else 1
+        no = 0 if rng.random() < 0.25 else 1
+        client = kind == 'request' or (kind == 'trailers' and rng.random() < 0.5)
+        ops = [{'op': 'new', 'c': 0, 'client': client, 'vo': vo, 'no': no, 'vi': 1, 'ni': 1, 'enc': None},
+               {'op': 'initiate_connection', 'c': 0},
+               {'op': 'recv', 'c': 0, 'data': (b'' if client else wire.PREFACE) + wire.settings_frame([]) + wire.settings_frame(ack=True)}]
+        plain = lambda hs: [(a, b, False) for a, b in hs]
+        if kind == 'request':
+            hs = mutate_block(rng, rng.choice([REQ, REQ, POST, CONNECT, HOSTED]), kind)
+            sid = 1
+        elif kind == 'response':
+            hs = mutate_block(rng, RESP, kind)
+            ops.append({'op': 'recv', 'c': 0, 'data': wire.headers_frames(1, blk(REQ), end_stream=True)})
+            sid = 1
+        elif kind == 'informational':
+            hs = mutate_block(rng, INFO, kind)
+            ops.append({'op': 'recv', 'c': 0, 'data': wire.headers_frames(1, blk(REQ), end_stream=True)})
+            sid = 1
+        elif kind == 'trailers':
+            hs = mutate_block(rng, TRAIL, kind)
+            if client:
+                ops.append({'op': 'send_headers', 'c': 0, 'sid': 1, 'headers': plain(POST), 'es': False})
+            else:
+                ops.append({'op': 'recv', 'c': 0, 'data': wire.headers_frames(1, blk(REQ), end_stream=True)})
+                ops.append({'op': 'send_headers', 'c': 0, 'sid': 1, 'headers': plain(RESP), 'es': False})
+            sid = 1
+        else:
+            hs = mutate_block(rng, rng.choice([REQ, REQ, HOSTED]), kind)
+            ops.append({'op': 'recv', 'c': 0, 'data': wire.headers_frames(1, blk(REQ), end_stream=False)})
+            sid = 1
+        hs = [(a, b) for a, b in hs if a != b'content-length' and len(a) > 0]
+        args = dress(rng, hs)
+        if kind == 'push':
+            ops.append({'op': 'push_stream', 'c': 0, 'sid': sid, 'promised': 2, 'headers': args})
+        else:
+            ops.append({'op': 'send_headers', 'c': 0, 'sid': sid, 'headers': args, 'es': kind == 'trailers' or (kind != 'informational' and rng.random() < 0.5)})
+        # is the block's kind what the library will take it for?
+        judge = True
+        norm = [(a, b) for a, b, _ in rulebook.normalise_out([(a, b) for a, b, _ in args])]
+        first = [(rulebook.to_bytes(a), rulebook.to_bytes(b)) for a, b, _ in args]
+        lead_status = None
+        for a, b in first:
+            if not a.startswith(b':'):
+                break
+            if a == b':status':
+                lead_status = b
+                break
+        if kind == 'informational' and not (lead_status is not None and lead_status[:1] == b'1'):
+            kind = 'response'
+        elif kind == 'response' and lead_status is not None and lead_status[:1] == b'1':
+            kind = 'informational'
+            judge = not ops[-1].get('es')
+        if kind == 'trailers' and not client and lead_status is not None and lead_status[:1] == b'1':
+            judge = False
+        if any(isinstance(a, bytes) != isinstance(b, bytes) for a, b, _ in args):
+            judge = False
+        if judge:
+            ops[-1]['expect'] = {'kind': kind}
+        prob = rulebook.block_problem_out(norm, kind)
+        stats[(kind, prob or 'conformant')] = stats.get((kind, prob or 'conformant'), 0) + 1
+        _judge('C14', ops, 'grammar-%d' % k, seed, model, oracle_C14, fails, mism)
         progs += 1
         nops += len(ops)
     dist = {}
